@@ -23,6 +23,7 @@ import (
 	"github.com/echovault/sugardb/internal/constants"
 	"io"
 	"net"
+	"slices"
 	"strings"
 )
 
@@ -213,7 +214,10 @@ func (server *SugarDB) handleCommand(ctx context.Context, message []byte, conn *
 }
 
 func (server *SugarDB) getCommands() []internal.Command {
-	return server.commands
+	server.commandsRWMut.RLock()
+	defer server.commandsRWMut.RUnlock()
+	// Hand out a copy: AddCommand / RemoveCommand / LoadModule modify the slice under the write lock.
+	return slices.Clone(server.commands)
 }
 
 func (server *SugarDB) getACL() interface{} {
